@@ -76,6 +76,10 @@ def write(verif, prop, tier, seed, obs, total_instances, results, violations, kn
         "property_id": prop, "tier": tier, "seed": seed, "level": level, "coverage": cov,
         "assumptions": meta["assumptions"], "wall_s": round(wall, 1), "violations": len(violations),
     }
-    os.makedirs(os.path.join(verif, "evidence"), exist_ok=True)
-    json.dump(doc, open(os.path.join(verif, "evidence", f"{prop}.json"), "w"), indent=1)
+    # runs against a scratch copy of the repository (seeded-defect experiments, VERIF_REPO set) never touch evidence/
+    import gen_tree
+    evdir = "evidence" if os.path.realpath(gen_tree.REPO) == "/repo" else "evidence_scratch"
+    doc["repo"] = gen_tree.REPO
+    os.makedirs(os.path.join(verif, evdir), exist_ok=True)
+    json.dump(doc, open(os.path.join(verif, evdir, f"{prop}.json"), "w"), indent=1)
     return doc
